@@ -78,6 +78,19 @@ impl Prop for C17 {
         st.eval();
         let o = hijri::from_civil(date.year() as i64, date.month() as i64, date.day() as i64);
         let era = if o.pre_epoch() { "pre-epoch" } else { "post-epoch" };
+        // history independence: first convert a date 2^k days away (k = 8..=21 from the date itself) - a remembered
+        // previous conversion with a truncated or hashed key would then be returned for this date
+        {
+            let n = date.num_days_from_ce() as i64;
+            let k = 8 + (n % 14);
+            let step = 1i64 << k;
+            let other = if n + step <= last().num_days_from_ce() as i64 { n + step } else { n - step };
+            if let Some(d2) = NaiveDate::from_num_days_from_ce_opt(other as i32) {
+                if d2 >= first() && d2 <= last() {
+                    let _ = catch(|| std::hint::black_box(HijriDate::from(d2)));
+                }
+            }
+        }
         let h = match catch(|| HijriDate::from(date)) {
             Ok(h) => h,
             Err(p) => {
